@@ -16,6 +16,8 @@ def run(ctx):
     # census and per-key counter identity carried down to the record-level model (stage 2) through the simulation
     if ctx.lake_build(["Slock.Properties.EngineSimTransfer"]):
         ctx.audit("Slock.Properties.EngineSimTransfer", ["Slock.SimP.key_view", "Slock.SimP.C17_census_transfers", "Slock.SimP.C01_counter_transfers", "Slock.SimP.sim_run"])
+    # drain, depth census, LCount of grant / release replies at record level
+    engine2_common.audit_transfer2(ctx, engine2_common.THEOREMS_SIMT2_C17)
     engine_common.run_engine(ctx, ["C17:"], n_quick=3000, n_thorough=60000)
     # records part: reference counts, KeyCount, reclamation (M-ENGINE stage 2 vs the real LockDB, snapshots include both refCounts and KeyCount)
     engine2_common.run_c17_records(ctx)
